@@ -69,14 +69,18 @@ theorem popTo_index (n : Nat) : ∀ (cur : KV) (snaps : List KV) (h : n < snaps.
 
 /-- **C04 (rollback).** Take any history `p1`, note the checkpoint `c = OpIndex()`, run any
 further operations `p2` that do not themselves roll back below `c`; then `Rollback(c)` restores
-exactly what was visible at the checkpoint: every key reads as it did then, and the op index is
-`c` again. -/
+exactly what was visible at the checkpoint: the op index is `c` again, every key — whether or
+not the scope may read it (`getValue` is the unscoped lookup: pending, block-level, parent) —
+resolves as it did then, hence every scoped `GetValue` too, and the view's pending-change map is
+the one it had at the checkpoint. -/
 theorem rollback_restores (ts : TS) (parent : KV) (scope : Key → Perm → Bool) (p1 p2 : List VOp) :
     let s1 := ((fresh ts parent scope).run p1).1
     let s2 := (s1.run p2).1
     (∀ n, VOp.rollback n ∈ p2 → s1.opIndex ≤ n) →
       s1.opIndex ≤ s2.opIndex ∧ (s2.rollback s1.opIndex).opIndex = s1.opIndex ∧
-      ∀ k, (s2.rollback s1.opIndex).get k = s1.get k := by
+      (∀ k, (s2.rollback s1.opIndex).getValue k = s1.getValue k) ∧
+      (∀ k, (s2.rollback s1.opIndex).get k = s1.get k) ∧
+      (∀ k, (s2.rollback s1.opIndex).pendingChangedKeys k = s1.pendingChangedKeys k) := by
   intro s1 s2 hp
   have h1 := run_refines p1 (rel_init ts scope parent)
   have h2 := run_refines p2 h1.1
@@ -95,14 +99,29 @@ theorem rollback_restores (ts : TS) (parent : KV) (scope : Key → Perm → Bool
   have hpop : popTo s1.opIndex m2.cur m2.snaps = (m1.cur, m1.snaps) := by
     simp only [View.opIndex, l1]; exact hk.2
   rw [hpop] at R3
-  refine ⟨hc, ?_, ?_⟩
+  have hvis : vis (s2.rollback s1.opIndex) = vis s1 := by rw [← R3.hcur, ← R1.hcur]
+  have hbase : m2.base = m1.base := by
+    rw [R2.hbase, R1.hbase]; exact (show Frame s1 s2 from h2.2.2).base
+  refine ⟨hc, ?_, ?_, ?_, ?_⟩
   · have := LogC_length R3.log
     simp only [View.opIndex] at this ⊢
     rw [this, l1]
   · intro k
+    rw [getValue_eq _ R3.nofail, getValue_eq _ R1.nofail, hvis]
+  · intro k
     have hsc : (s2.rollback s1.opIndex).scope = s1.scope :=
       (rollback_frame s2 s1.opIndex).2.2.trans h2.2.2.2.2
-    rw [get_eq _ R3.nofail, get_eq _ R1.nofail, hsc, ← R3.hcur, ← R1.hcur]
+    rw [get_eq _ R3.nofail, get_eq _ R1.nofail, hsc, hvis]
+  · intro k
+    rw [pending_eq_diff R3 k, pending_eq_diff R1 k]
+    simp only [CM.diff, hbase]
+
+/-- Bookkeeping invariant (the `writes` map of `KeyOperations()`): after any operation list a
+key has a recorded write exactly when it has a pending change. -/
+theorem writes_track_pending (ts : TS) (parent : KV) (scope : Key → Perm → Bool) (prog : List VOp) (k : Key) :
+    (((fresh ts parent scope).run prog).1.writes k).isSome =
+      (((fresh ts parent scope).run prog).1.pendingChangedKeys k).isSome :=
+  ((fresh_rel ts parent scope prog).1.good.dom k).symm
 
 /-- Invariant behind the commit theorem: after any operation list the view's pending map is
 exactly the diff between the visible and the underlying state (a pending entry always differs
